@@ -2,6 +2,7 @@
 import ast
 import os
 import sys
+import threading
 
 from . import harness as H
 
@@ -188,3 +189,118 @@ class cpu_guard(object):
         if self._old_timer and self._old_timer[0] > 0:
             signal.setitimer(signal.ITIMER_PROF, *self._old_timer)
         return False
+
+
+
+class Preempt(object):
+    """Deterministic two-thread schedules at line granularity inside the library (C12).
+
+    run(fa, fb, k, j): thread A executes fa until its k-th LINE event in library code and is held there; thread B
+    executes fb - to completion when j is None, else until its j-th LINE event, where it is held until A has
+    finished - then the held thread goes on.  Exactly one of the two threads is runnable at any time, so the
+    schedule is decided by (k, j) alone and can be replayed."""
+    TOOL = 2
+
+    def __init__(self, prefix, timeout=60.0):
+        self.prefix = prefix
+        self.timeout = timeout
+        self.st = None
+        self.owned = False
+
+    def install(self):
+        mon = sys.monitoring
+        mon.use_tool_id(self.TOOL, 'verif-preempt')
+        self.owned = True
+        mon.register_callback(self.TOOL, mon.events.LINE, self._on_line)
+        mon.set_events(self.TOOL, mon.events.LINE)
+
+    def uninstall(self):
+        mon = sys.monitoring
+        if self.owned:
+            mon.set_events(self.TOOL, 0)
+            mon.register_callback(self.TOOL, mon.events.LINE, None)
+            mon.free_tool_id(self.TOOL)
+            self.owned = False
+
+    def _on_line(self, code, line):
+        if not code.co_filename.startswith(self.prefix):
+            return sys.monitoring.DISABLE
+        st = self.st
+        if st is None:
+            return None
+        t = threading.get_ident()
+        if t == st['a_id']:
+            st['a_n'] += 1
+            if st['a_n'] == st['k'] and not st['b_started']:
+                st['b_started'] = True
+                st['tb'].start()
+                st['b_paused'].wait(self.timeout)
+        elif t == st['b_id']:
+            st['b_n'] += 1
+            if st['j'] is not None and st['b_n'] == st['j'] and not st['a_done'].is_set():
+                st['b_paused'].set()
+                st['a_done'].wait(self.timeout)
+        return None
+
+    @staticmethod
+    def _outcome(fn):
+        try:
+            return ('ok', fn())
+        except Exception as ex:
+            return ('raised', type(ex).__name__)
+
+    def count(self, fn):
+        """-> (number of LINE events fn causes in library code when run alone in a thread, its outcome)"""
+        st = {'a_id': None, 'b_id': None, 'a_n': 0, 'b_n': 0, 'k': -1, 'j': None, 'b_started': True,
+              'a_done': threading.Event(), 'b_paused': threading.Event(), 'tb': None}
+        box = {}
+
+        def a():
+            st['a_id'] = threading.get_ident()
+            self.st = st
+            try:
+                box['a'] = self._outcome(fn)
+            finally:
+                self.st = None
+        t = threading.Thread(target=a)
+        t.start()
+        t.join(self.timeout)
+        return st['a_n'], box.get('a')
+
+    def run(self, fa, fb, k, j=None):
+        """-> (outcome of fa, outcome of fb, 'preempted' | 'not-preempted' | 'timeout')"""
+        box = {}
+        st = {'a_id': None, 'b_id': None, 'a_n': 0, 'b_n': 0, 'k': k, 'j': j, 'b_started': False,
+              'a_done': threading.Event(), 'b_paused': threading.Event(), 'tb': None}
+
+        def b():
+            st['b_id'] = threading.get_ident()
+            try:
+                box['b'] = self._outcome(fb)
+            finally:
+                st['b_paused'].set()
+
+        def a():
+            st['a_id'] = threading.get_ident()
+            self.st = st
+            try:
+                box['a'] = self._outcome(fa)
+            finally:
+                st['a_done'].set()
+        st['tb'] = threading.Thread(target=b)
+        ta = threading.Thread(target=a)
+        ta.start()
+        ta.join(self.timeout)
+        info = 'preempted'
+        if ta.is_alive():
+            self.st = None
+            return None, None, 'timeout'
+        if not st['b_started']:
+            info = 'not-preempted'
+            st['b_started'] = True
+            st['tb'].start()
+        st['tb'].join(self.timeout)
+        self.st = None
+        if st['tb'].is_alive():
+            return None, None, 'timeout'
+        return box.get('a'), box.get('b'), info
